@@ -110,6 +110,19 @@ class _Renamer(ast.NodeTransformer):
         node.body = _Renamer(inner).visit(node.body)
         return node
 
+    def visit_FunctionDef(self, node):
+        a = node.args
+        shadow = {x.arg for x in a.posonlyargs + a.args + a.kwonlyargs}
+        if a.vararg:
+            shadow.add(a.vararg.arg)
+        if a.kwarg:
+            shadow.add(a.kwarg.arg)
+        inner = _Renamer({k: v for k, v in self.mapping.items() if k not in shadow})
+        node.body = [inner.visit(s) for s in node.body]
+        if node.name in self.mapping and isinstance(self.mapping[node.name], ast.Name):
+            node.name = self.mapping[node.name].id
+        return node
+
 
 def _body_without_docstring(fn):
     body = list(fn.body)
@@ -148,6 +161,14 @@ def _names_stored(stmts):
             elif isinstance(n, ast.FunctionDef):
                 out.add(n.name)
     return out
+
+
+def _is_literal(node):
+    try:
+        ast.literal_eval(node)
+        return True
+    except Exception:
+        return False
 
 
 def _names_used(node):
@@ -221,7 +242,7 @@ class Inliner(object):
         rename = {}
         for p, a in mapping.items():
             simple = isinstance(a, (ast.Name, ast.Constant)) or \
-                (isinstance(a, ast.Attribute) and isinstance(a.value, ast.Name))
+                (isinstance(a, ast.Attribute) and isinstance(a.value, ast.Name)) or _is_literal(a)
             if simple and p not in stored:
                 rename[p] = a
             else:
